@@ -77,6 +77,7 @@ def runLine (line : String) : Driver.Result :=
     if impl == "same" then ⟨"S", ""⟩
     else ⟨"P", s!"conc {cfg} template [{tmpl}]: {impl} violates C20: key=results-differ-from-sequential"⟩
   | ["scan", sizes, reader, impl] => Driver.StreamCase.runScan sizes reader impl
+  | ["shortw", _, to, val, ext, impl] => Driver.Line.runShortWrite to val ext impl
   | ["emit", prop, to, val, ext, impl] => Driver.Line.runEmit prop to val ext impl
   | ["std", fn, args, impl] => Driver.Std.runCase fn args impl
   | kind :: _ => ⟨"B", s!"unknown case kind or arity: {kind}"⟩
